@@ -437,8 +437,8 @@ func Generate(r *sim.Rng, prop, tier string, idx int) *sim.Case {
 		np := 1 + r.Intn(3)
 		for p := 0; p < np; p++ {
 			switch r.Intn(6) {
-			case 0: // far then near
-				task.Ops = append(task.Ops, sim.Op{K: "call", D: int64(sim.Pick(r, time.Minute, 10*time.Second, time.Hour))})
+			case 0: // far then near (the far one may be "practically never": it must not stand in the way of anything)
+				task.Ops = append(task.Ops, sim.Op{K: "call", D: int64(sim.Pick(r, time.Minute, 10*time.Second, time.Hour, time.Hour, time.Duration(1<<63-1), 250*365*24*time.Hour, 292*365*24*time.Hour))})
 				if r.Chance(1, 2) {
 					task.Ops = append(task.Ops, sim.Op{K: "sleep", D: int64(sim.Pick(r, time.Microsecond, time.Millisecond, 2*idle))})
 				}
